@@ -52,7 +52,7 @@ Definition no_body_status (s : N) : bool := ((100 <=? s) && (s <? 200)) || (s =?
 Definition framing_of (head_req : bool) (status : N) (fields : list (bytes * bytes)) : option framing :=
   if head_req || no_body_status status then Some FNoBody
   else match field_values "transfer-encoding" fields with
-       | _ :: _ as te => if bytes_eqb (last_coding te) (sstr "chunked") then Some FChunked else Some FClose
+       | (_ :: _) as te => if bytes_eqb (last_coding te) (sstr "chunked") then Some FChunked else Some FClose
        | [] => match field_values "content-length" fields with
                | [] => Some FClose
                | v :: r => match parse_dec v with
